@@ -160,3 +160,41 @@ MUTANTS += [
     {"id": 'C03-counter-from-enumerate-plus-two', "prop": "C03", "expect": 'FOLD',
      "edits": [("src/decoder.rs", '        for byte in buf.fill_buf()?.iter() {\n            consume += 1;\n', '        for (index, byte) in buf.fill_buf()?.iter().enumerate() {\n            consume = index + 2;\n')]},
 ]
+
+
+# ---- round 5 (C09-O): no counter variable at all - every consume site states the count directly (`index + 1` inside the iteration of
+# byte #index, the slice length once the traversal is exhausted); mixed forms; near misses
+_U8_OLD = ('        let mut consume = 0;\n        for byte in buf.fill_buf()?.iter() {\n            consume += 1;\n            match UTF8DFA.transition(self.state, *byte) {\n'
+           '                None => {\n                    use std::io::{Error, ErrorKind};\n                    self.reset();\n                    buf.consume(consume);\n'
+           '                    return Err(Error::new(ErrorKind::InvalidInput, "utf8 decoder failed"));\n                }\n'
+           '                Some(state) if UTF8DFA.info(state).is_accepting => {\n                    self.push(*byte);\n                    buf.consume(consume);\n'
+           '                    return Ok(Some(self.consume()));\n                }\n                Some(state) => {\n                    self.push(*byte);\n                    self.state = state;\n'
+           '                }\n            }\n        }\n        buf.consume(consume);\n        Ok(None)\n')
+
+
+def _u8_new(err_n, acc_n, end_n, pre="", inc=""):
+    return ('        let bytes = buf.fill_buf()?;\n        let available = bytes.len();\n' + pre + '        for (index, &byte) in bytes.iter().enumerate() {\n' + inc +
+            '            match UTF8DFA.transition(self.state, byte) {\n'
+            '                None => {\n                    use std::io::{Error, ErrorKind};\n                    self.reset();\n                    buf.consume(' + err_n + ');\n'
+            '                    return Err(Error::new(ErrorKind::InvalidInput, "utf8 decoder failed"));\n                }\n'
+            '                Some(state) if UTF8DFA.info(state).is_accepting => {\n                    self.push(byte);\n                    buf.consume(' + acc_n + ');\n'
+            '                    return Ok(Some(self.consume()));\n                }\n                Some(state) => {\n                    self.push(byte);\n                    self.state = state;\n'
+            '                }\n            }\n        }\n        buf.consume(' + end_n + ');\n        Ok(None)\n')
+
+
+MUTANTS += [
+    {"id": 'C03-benign-no-counter-index-and-len', "prop": "C03", "benign": True,
+     "edits": [("src/decoder.rs", _U8_OLD, _u8_new("index + 1", "index + 1", "available"))]},
+    {"id": 'C03-benign-no-counter-swapped-and-reslice-len', "prop": "C03", "benign": True,
+     "edits": [("src/decoder.rs", _U8_OLD, _u8_new("1 + index", "index + 1", "available").replace("let available = bytes.len();\n", "let available = bytes[..].len();\n"))]},
+    {"id": 'C03-benign-counter-and-len-mixed', "prop": "C03", "benign": True,
+     "edits": [("src/decoder.rs", _U8_OLD, _u8_new("consume", "index + 1", "available", pre="        let mut consume = 0;\n", inc="            consume += 1;\n"))]},
+    {"id": 'C03-counter-incremented-late-mixed', "prop": "C03", "expect": 'FOLD',
+     "edits": [("src/decoder.rs", _U8_OLD, _u8_new("consume", "index + 1", "available", pre="        let mut consume = 0;\n", inc="            if index > 0 {\n                consume += 1;\n            }\n"))]},
+    {"id": 'C03-no-counter-index-without-plus-one', "prop": "C03", "expect": 'FOLD',
+     "edits": [("src/decoder.rs", _U8_OLD, _u8_new("index + 1", "index", "available"))]},
+    {"id": 'C03-no-counter-len-inside-iteration', "prop": "C03", "expect": 'FOLD',
+     "edits": [("src/decoder.rs", _U8_OLD, _u8_new("index + 1", "available", "available"))]},
+    {"id": 'C03-no-counter-len-minus-one-at-end', "prop": "C03", "expect": 'FOLD',
+     "edits": [("src/decoder.rs", _U8_OLD, _u8_new("index + 1", "index + 1", "available.saturating_sub(1)"))]},
+]
